@@ -147,6 +147,12 @@ Proof. rewrite !coeff_bind_sum. induction l as [|[x y] l IH]; simpl; [ring|]. re
 Lemma coeff_bind_scalef k l c f :
   coeff k (lbind l (fun s => lscale c (f s))) = Cmul c (coeff k (lbind l f)).
 Proof. rewrite !coeff_bind_sum. induction l as [|[x y] l IH]; simpl; [ring|]. rewrite IH, coeff_scale. ring. Qed.
+Lemma coeff_bind_ret k l : coeff k (lbind l (fun x => [(C1, x)])) = coeff k l.
+Proof.
+  induction l as [|[c x] l IH]; [reflexivity|].
+  change (lbind ((c, x) :: l) (fun x => [(C1, x)])) with (lscale c [(C1, x)] ++ lbind l (fun x => [(C1, x)])).
+  rewrite coeff_app, coeff_scale, IH. cbn [coeff]. destruct (keqb k x); ring.
+Qed.
 Lemma lbind_nilf l : lbind l (fun _ => []) = [].
 Proof. induction l as [|[x y] l IH]; simpl; [reflexivity|assumption]. Qed.
 
